@@ -17,7 +17,7 @@ import liesel.model as lsl
 from liesel.goose.optim import Stopper, optim_flat
 from simkit.core import EventLog, SutError, Violations, canon, sha
 
-RUN_CAP_S = 300
+RUN_CAP_S = 900
 F32 = np.float32
 
 
